@@ -328,7 +328,7 @@ def coq_case(case):
         amap = {}
         items = []
         for c, (_, a) in zip(cls, case["items"]):
-            ka = json.dumps(a)
+            ka = json.dumps(sorted(a) if isinstance(a, list) else a)
             amap.setdefault(ka, len(amap))
             items.append(cpair(cN(c), cN(amap[ka])))
         return "run_cluster %s %s %s" % (clist(items), cnat(case.get("pre", 0)), clist([cnat(b) for b in case["sizes"]]))
@@ -634,6 +634,7 @@ def _gen_batch(rng, us, ec, exec_, n_entries, n_rules, ncalls=1, modes=ALLOC_MOD
 
 def _gen_cluster(rng, us_graphs, n, allsizes):
     from ..gen import graphs as G
+    listatt = rng.random() < 0.35
     base = [rng.choice(us_graphs) for _ in range(max(2, n // 3))]
     items = []
     for _ in range(n):
@@ -653,7 +654,9 @@ def _gen_cluster(rng, us_graphs, n, allsizes):
                 e = rng.choice(g["edges"])
                 e[2]["order"] = rng.choice([[1, 2], [2, 1], [0, 1], [1, 0], [1.5, 1]])
         att = "".join(sorted(a["element"] for _, a in g["nodes"])) + "/%d" % len(g["edges"])
-        if rng.random() < 0.1:
+        if listatt:                                            # list-valued attribute in NODE ORDER: a multiset
+            att = [a["element"] for _, a in g["nodes"]]
+        elif rng.random() < 0.1:
             att = "same"                                       # degenerate pre-grouping (still iso-invariant)
         items.append([g, att])
     pre = rng.choice([0, 0, rng.randrange(1, max(2, n // 2))])
